@@ -52,6 +52,12 @@ func appendNextToken(l *LLk) {
 	l.tkns = append(l.tkns, lexer.Token{Type: lexer.ItemEOF})
 }
 
+// drain consumes and discards all the pending tokens so the lexer can finish.
+func (l *LLk) drain() {
+	for range l.c {
+	}
+}
+
 // Current returns the current token being processed.
 func (l *LLk) Current() *lexer.Token {
 	return &l.tkns[0]
